@@ -596,4 +596,132 @@ theorem clinv_step {p decl : Seat} {dh0 : List Card} {j : Nat} {w w1 : WithHands
   · intro h hp
     exact hk (hpre_late (by omega) hp)
 
+theorem preObs_base (p decl : Seat) (dh0 : List Card) (j : Nat) (o : Observed) :
+    (preObs p decl dh0 j o).base = o.base := by
+  unfold preObs; split <;> rfl
+theorem preObs_me (p decl : Seat) (dh0 : List Card) (j : Nat) (o : Observed) :
+    (preObs p decl dh0 j o).me = o.me := by
+  unfold preObs; split <;> rfl
+
+/-- the acknowledgement / the card the client sends for the card of the seat on turn -/
+def cardK (p decl : Seat) (s : PState) (text : Text) : ClientActs :=
+  if p = cardPlayer s.active decl then [.send (.c2s p) text]
+  else [.send (.c2s p) (readyFor p ((if s.active = decl.partner then "dummy".toList else s.active.formal) ++
+          "'s card to trick ".toList ++ natStr s.trickNum)), .recv (.s2c p)]
+
+/-- one whole iteration of the inner loop -/
+theorem clientIter {p decl : Seat} {dh0 : List Card} {j : Nat} {w w1 : WithHands} {o : Observed} {opened : Bool}
+    {c : Card} (text dc : Text) (n : Nat) (hI : ClInv p decl dh0 j w o opened)
+    (hdc : (parseCards? dc "Dummy".toList).bind parseHand? = some dh0)
+    (hw : w.play c w.base.active = .ok w1) (hparse : parseCard? text w.base.active = some c)
+    (hb : senderOf decl w.base.active = p → text = playMsg w.base.active c false)
+    (S : List Text) (cl : List Call) (CD cd : List Card)
+    (hCD : CD = (if senderOf decl w.base.active = p then [c] else []) ++ cd) :
+    ∃ o1, ClInv p decl dh0 (j + 1) w1 o1 (decide (1 ≤ j)) ∧
+      clientTrickR p decl (n + 1) o opened
+          { s := pendS p decl dc j ++ ((if p = cardPlayer w.base.active decl then [] else [text]) ++ S),
+            calls := cl, cards := CD } =
+        (clientTrickR p decl n o1 (decide (1 ≤ j)) { s := S, calls := cl, cards := cd }).bind fun r =>
+          some (pendK p decl j ++ (cardK p decl w.base text ++ r.1), r.2) := by
+  obtain ⟨o1, hplay, hI1⟩ := clinv_step hI hw
+  refine ⟨o1, hI1, ?_⟩
+  have hbase : o.base = w.base := hI.rel.base
+  have hcard := clientCardR_run p decl w.base.active (preObs p decl dh0 j o) o1 c text hplay
+    ((preObs_me p decl dh0 j o).trans hI.me)
+    (by rw [preObs_base, hbase]; exact hI.dum) hparse hb S cl CD cd hCD
+  rw [preObs_base, hbase] at hcard
+  rw [clientTrickR_succ, hbase, clientOpenR_run hI dc hdc]
+  simp only [Option.bind_eq_bind, Option.bind_some, hcard, Option.pure_def, cardK, List.append_assoc]
+
+theorem pendS_succ (p decl : Seat) (dc : Text) (j : Nat) :
+    (if decide (j = 0) = true ∧ p ≠ decl.partner then [dc] else []) = pendS p decl dc (j + 1) := by
+  unfold pendS
+  by_cases h : j = 0 <;> simp [h]
+theorem pendK_succ (p decl : Seat) (j : Nat) :
+    (if decide (j = 0) = true ∧ p ≠ decl.partner then
+        [Act.send (Chan.c2s p) (readyFor p "dummy".toList), Act.recv (Chan.s2c p)] else []) =
+      pendK p decl (j + 1) := by
+  unfold pendK
+  by_cases h : j = 0
+  · subst h
+    by_cases hp : p ≠ decl.partner
+    · rw [if_pos ⟨by decide, hp⟩, if_pos ⟨rfl, hp⟩]
+    · rw [if_neg (fun hh => hp hh.2), if_neg (fun hh => hp hh.2)]
+  · have h1 : ¬ (decide (j = 0) = true ∧ p ≠ decl.partner) := fun hh => h (by simpa using hh.1)
+    have h2 : ¬ (j + 1 = 1 ∧ p ≠ decl.partner) := fun hh => h (by omega)
+    rw [if_neg h1, if_neg h2]
+
+/-- the streams of a card phase, the lead prompt apart -/
+theorem card_phase_streams (p decl : Seat) (deal : Hands) (s : PState) (j : Nat) (c : Card) (text : Text)
+    (rest : List (Card × Text)) :
+    (cardPhases decl deal s j ((c, text) :: rest)).flatMap (s2cOf p) =
+      (if decide (s.trick = []) = true ∧ p = cardPlayer s.active decl then
+          [if s.active = decl.partner then "Dummy to lead".toList else s.active.formal ++ " to lead".toList]
+        else []) ++
+      ((if p = cardPlayer s.active decl then [] else [text]) ++
+       (pendS p decl (cardsMsg "Dummy".toList (deal decl.partner)) (j + 1) ++
+        (cardPhases decl deal (playCard s c) (j + 1) rest).flatMap (s2cOf p))) ∧
+    (cardPhases decl deal s j ((c, text) :: rest)).flatMap (kOf p) =
+      (if decide (s.trick = []) = true ∧ p = cardPlayer s.active decl then [.recv (.s2c p)] else []) ++
+      (cardK p decl s text ++
+       (pendK p decl (j + 1) ++ (cardPhases decl deal (playCard s c) (j + 1) rest).flatMap (kOf p))) := by
+  simp only [cardPhases, List.flatMap_cons, s2cOf_card3, kOf_card3, pendS_succ, pendK_succ, cardK,
+    List.append_assoc]
+  trivial
+
+/-- the cards of a trick after the lead -/
+theorem clientTrick_tail (p decl : Seat) (dh0 : List Card) (deal : Hands)
+    (hdc : (parseCards? (cardsMsg "Dummy".toList (deal decl.partner)) "Dummy".toList).bind parseHand? = some dh0)
+    (rest : List (Card × Text)) (tail : List Text) (cl : List Call) (cd : List Card) :
+    ∀ (l : List (Card × Text)) (idx j : Nat) (w : WithHands) (o : Observed) (opened : Bool),
+    1 ≤ idx → idx + l.length = 4 → j % 4 = idx % 4 → ClInv p decl dh0 j w o opened →
+    PlayHyp p decl w (l ++ rest) →
+    ∃ w' o' opened' X, ClInv p decl dh0 (j + l.length) w' o' opened' ∧ PlayHyp p decl w' rest ∧
+      clientTrickR p decl l.length o opened
+          { s := pendS p decl (cardsMsg "Dummy".toList (deal decl.partner)) j ++
+                   ((cardPhases decl deal w.base j (l ++ rest)).flatMap (s2cOf p) ++ tail),
+            calls := cl, cards := ownCards p decl w.base (l ++ rest) ++ cd } =
+        some (X, o', opened',
+          { s := pendS p decl (cardsMsg "Dummy".toList (deal decl.partner)) (j + l.length) ++
+                   ((cardPhases decl deal w'.base (j + l.length) rest).flatMap (s2cOf p) ++ tail),
+            calls := cl, cards := ownCards p decl w'.base rest ++ cd }) ∧
+      pendK p decl j ++ (cardPhases decl deal w.base j (l ++ rest)).flatMap (kOf p) =
+        X ++ (pendK p decl (j + l.length) ++
+          (cardPhases decl deal w'.base (j + l.length) rest).flatMap (kOf p)) := by
+  intro l
+  induction l with
+  | nil =>
+    intro idx j w o opened _ _ _ hI hyp
+    exact ⟨w, o, opened, [], hI, hyp, by simp [clientTrickR], by simp⟩
+  | cons x l ih =>
+    intro idx j w o opened hidx hlen hmod hI hyp
+    obtain ⟨c, text⟩ := x
+    obtain ⟨w1, hw, hb1, hparse, hbun, hyp1⟩ := playHyp_cons hyp
+    have hlead : decide (w.base.trick = []) = false := by
+      have h1 := hI.pinv.len
+      simp at hlen
+      have : w.base.trick.length ≠ 0 := by omega
+      simpa using fun e => this (by rw [e]; rfl)
+    obtain ⟨hS, hK⟩ := card_phase_streams p decl deal w.base j c text (l ++ rest)
+    simp only [hlead, Bool.false_eq_true, false_and, if_false, List.nil_append] at hS hK
+    obtain ⟨o1, hI1, hrun⟩ := clientIter text (cardsMsg "Dummy".toList (deal decl.partner)) l.length hI hdc hw
+      hparse hbun
+      (pendS p decl (cardsMsg "Dummy".toList (deal decl.partner)) (j + 1) ++
+        ((cardPhases decl deal w1.base (j + 1) (l ++ rest)).flatMap (s2cOf p) ++ tail)) cl
+      (ownCards p decl w.base ((c, text) :: l ++ rest) ++ cd) (ownCards p decl w1.base (l ++ rest) ++ cd)
+      (by simp only [List.cons_append, ownCards, hb1, List.append_assoc])
+    obtain ⟨w', o', opened', X, hI', hyp', hrun', hK'⟩ := ih (idx + 1) (j + 1) w1 o1 _ (by omega)
+      (by simp at hlen; omega) (by omega) hI1 hyp1
+    have e1 : j + 1 + l.length = j + ((c, text) :: l).length := by simp; omega
+    rw [e1] at hI' hrun' hK'
+    refine ⟨w', o', opened', pendK p decl j ++ (cardK p decl w.base text ++ X), hI', hyp', ?_, ?_⟩
+    · rw [List.cons_append, hS, ← hb1, List.length_cons]
+      simp only [List.append_assoc]
+      rw [List.cons_append] at hrun
+      rw [hrun, hrun']
+      rfl
+    · rw [List.cons_append, hK, ← hb1]
+      simp only [List.append_assoc]
+      rw [← hK']
+
 end Bridge
